@@ -59,5 +59,7 @@ func TryAbsToRel(abs string) string {
 // IsExtOnly checks whether path points to a file with no name but with
 // an extension, i.e. ".yaml"
 func IsExtOnly(path string) bool {
-	return filepath.Base(path) == filepath.Ext(path)
+	ext := filepath.Ext(path)
+	// "." and "dir/." are directories, not an extension without a name
+	return len(ext) > 1 && filepath.Base(path) == ext
 }
